@@ -271,7 +271,7 @@ package raft
 //@   invariant forall j int :: 0 <= j && j < idx ==> (exists id uint64 :: in(id, r.prs) && r.matchBuf[j] == r.prs[id].Match)
 //@   invariant forall p int :: r.matchBuf.off <= p && p < r.matchBuf.off + idx ==> (exists id uint64 :: in(id, r.prs) && at(r.matchBuf, p) == r.prs[id].Match)
 
-//@ property C03
+//@ property C03 C01
 // what must be on stable storage before messages leave: entries, vote, term
 //@ func MustSync(st pb.HardState, prevst pb.HardState, entsnum int) bool
 //@   ensures result <==> (entsnum != 0 || st.Vote != prevst.Vote || st.Term != prevst.Term)
@@ -313,6 +313,7 @@ package raft
 //@   ensures len(entries) >= 1 && old(entries[0].Index) + len(entries) - 1 >= old(ms.ents[0].Index) + 1 ==> (forall i uint64 :: max(old(entries[0].Index), ms.ents[0].Index + 1) <= i && i <= mlast(ms) ==> mterm(ms, i) == old(entries[i - entries[0].Index].Term))
 //@   modifies ms.ents, ms.ents[len(ms.ents):cap(ms.ents)]
 
+//@ property C03 C02 C01
 //@ func isHardStateEqual(a pb.HardState, b pb.HardState) bool
 //@   ensures result <==> (a.Term == b.Term && a.Vote == b.Vote && a.Commit == b.Commit)
 //@ func IsEmptyHardState(st pb.HardState) bool
@@ -607,7 +608,7 @@ package raft
 //@ loop 1
 //@   invariant r.raftLog == old(r.raftLog) && r.raftLog.committed == old(r.raftLog.committed) && r.Term == old(r.Term) && r.Vote == old(r.Vote) && r.id == old(r.id) && rOK(r)
 
-//@ property C02 C03
+//@ property C02 C03 C01
 // ---- the Ready hand-out: what must be persisted, what may be applied, and the applied cursor ----
 //@ func (l *raftLog) unstableEntries() []pb.Entry
 //@   requires l != nil
@@ -666,7 +667,7 @@ package raft
 //  - remembers its term and its vote (it can never vote twice in a term it voted in before the restart),
 //  - takes its voters from the persisted voter list only (never more voters than persisted; a persisted learner
 //    is a learner: not in prs, flagged isLearner when it is this replica), and no replica is voter and learner.
-//@ property C01
+//@ property C01 C03
 //@ interface (github.com/youzan/ZanRedisDB/raft.Storage).InitialState func(s Storage) (pb.HardState, pb.ConfState, error)
 //@   ensures result0.Term == ghost(hsterm, s) && result0.Vote == ghost(hsvote, s) && result0.Commit == ghost(hscommit, s)
 //@   ensures len(result1.Nodes) == ghost(csvoters, s) && len(result1.Learners) == ghost(cslearners, s)
